@@ -570,6 +570,7 @@ type c10CrashCase struct {
 	Base   *c10Case `json:"base"`
 	Change []c10Mut `json:"change"`
 	NewPod bool     `json:"newpod"`
+	Shrink bool     `json:"shrink"` // the save after the restart is of a smaller cache
 	Fault  c10Fault `json:"fault"`
 }
 
@@ -678,6 +679,34 @@ func c10Crash(cc *c10CrashCase, selfExe string) (v *vfkit.Violation, interesting
 		return c10v("after an interrupted or failed save the file is the previous or the new snapshot", "neither-old-nor-new-snapshot:"+f.Syscall+":"+f.Action,
 			"fault %+v (helper exit %d): vs previous %v; vs new %v", f, exit, d0, d1), true
 	}
+	// the service restarts on what the fault left behind (possibly a partial
+	// temporary file) and goes on: its next save, typically of a smaller
+	// cache, must again be a complete snapshot that loads to what was saved
+	if cc.Shrink {
+		for _, p := range cc.Base.Pods {
+			for _, x := range re.GetContainers() {
+				if x.GetPodID() == p.ID {
+					re.DeleteContainer(x.GetID())
+				}
+			}
+			re.DeletePod(p.ID)
+		}
+		re.DeletePod("newpod")
+	}
+	re.SetPolicyEntry("crash-marker", "recovered")
+	want := c10Describe(re, &descCase)
+	if err := re.Save(); err != nil {
+		return c10v("a save after an interrupted or failed save succeeds", "save-after-fault-failed:"+f.Syscall+":"+f.Action, "fault %+v (helper exit %d): %v", f, exit, err), true
+	}
+	re2, err := NewCache(Options{CacheDir: dir})
+	if err != nil {
+		return c10v("the save following an interrupted or failed save is a complete snapshot", "cache-unloadable-after-recovery-save:"+f.Syscall+":"+f.Action,
+			"fault %+v (helper exit %d), shrink=%v: %v", f, exit, cc.Shrink, err), true
+	}
+	if d := c10Diff(want, c10Describe(re2, &descCase)); len(d) > 0 {
+		return c10v("the save following an interrupted or failed save is a complete snapshot", "recovery-save-not-round-trip:"+f.Syscall+":"+f.Action,
+			"fault %+v (helper exit %d), shrink=%v: %v", f, exit, cc.Shrink, d), true
+	}
 	// interesting: the fault hit inside the save (helper did not finish cleanly) and snapshots differ
 	return nil, exit != 0 && len(c10Diff(s0, s1)) > 0
 }
@@ -692,7 +721,7 @@ func TestVerifC10Crash(t *testing.T) {
 	}
 	rapid.Check(t, func(t *rapid.T) {
 		base := c10Gen(t)
-		cc := &c10CrashCase{Base: base, NewPod: rapid.Bool().Draw(t, "newpod")}
+		cc := &c10CrashCase{Base: base, NewPod: rapid.Bool().Draw(t, "newpod"), Shrink: rapid.IntRange(0, 2).Draw(t, "shrink") != 0}
 		if len(base.Ctrs) > 0 {
 			cc.Change = []c10Mut{{Kind: "tag", Ctr: 0, Key: "t1", Val: "crash"}, {Kind: "shares", Ctr: 0, Num: 4096}}
 		}
